@@ -58,7 +58,9 @@ class Site:
 
 
 class IntervalInterp:
-    def __init__(self, consts: dict, callee_summaries=None, query_names=("_query",)):
+    def __init__(self, consts: dict, callee_summaries=None, query_names=("_query",), functions=None, depth=0):
+        self.functions = functions or {}   # name -> FunctionDef of helpers (methods of the class / module-level functions): inlined
+        self.depth = depth
         self.consts = consts            # name -> number / list
         self.sites: list[Site] = []
         self.fmt_issues = []            # (node, name, spec): float format spec applied to an array
@@ -84,9 +86,18 @@ class IntervalInterp:
 
     def stmt(self, s, env):
         if isinstance(s, ast.Assign):
+            if len(s.targets) == 1 and isinstance(s.targets[0], ast.Tuple) and len(s.targets[0].elts) == 2 and isinstance(s.value, ast.Call) \
+                    and _callname(s.value) == "divmod" and len(s.value.args) == 2:
+                # q, r = divmod(a, b)
+                a, b = (self.ev(x, env) for x in s.value.args)
+                self.bind(s.targets[0].elts[0], self.arith(ast.FloorDiv(), a, b), env)
+                self.bind(s.targets[0].elts[1], self.arith(ast.Mod(), a, b), env)
+                return
             v = self.ev(s.value, env)
             for t in s.targets:
                 self.bind(t, v, env)
+            if isinstance(s.value, ast.JoinedStr) and len(s.targets) == 1 and isinstance(s.targets[0], ast.Name):
+                env["$str:" + s.targets[0].id] = self._fstring(s.value, env, None)   # a command built first and sent later
         elif isinstance(s, ast.AugAssign):
             cur = self.ev(_load(s.target), env)
             r = self.ev(s.value, env)
@@ -219,6 +230,11 @@ class IntervalInterp:
             if isinstance(inner, ast.Compare) and pol:
                 self._refine_cmp(inner, env, True)
             return
+        if isinstance(test, ast.Name) and isinstance(env.get(test.id), AV) and env[test.id].note == "int-remainder" and env[test.id].lo >= 0:
+            # `r = a % k` (or divmod) ... `if r:` - same as testing the remainder expression directly
+            cur = env[test.id]
+            env[test.id] = cur.copy(lo=max(cur.lo, 1)) if pol else cur.copy(lo=0, hi=0)
+            return
         if isinstance(test, ast.BinOp) and isinstance(test.op, ast.Mod):
             # `if a % k:` - a non-negative integer remainder that is truthy is >= 1, falsy is 0
             cur = self.ev(test, env)
@@ -345,6 +361,9 @@ class IntervalInterp:
             self._fstring(n, env, None)
             return AV(kind="str")
         if isinstance(n, ast.IfExp):
+            self.ev(n.test, env)
+            if all(isinstance(x, ast.Constant) and isinstance(x.value, str) for x in (n.body, n.orelse)):
+                return AV(kind="str", member=frozenset((n.body.value, n.orelse.value)))   # one of two literal texts
             return hull(self.ev(n.body, env), self.ev(n.orelse, env))
         if isinstance(n, ast.Compare):
             self.ev(n.left, env)
@@ -394,7 +413,7 @@ class IntervalInterp:
             if isinstance(op, ast.FloorDiv) and b.lo == b.hi and b.lo > 0:
                 return AV(math.floor(a.lo / b.lo) if not math.isinf(a.lo) else a.lo, math.floor(a.hi / b.lo) if not math.isinf(a.hi) else a.hi, kind)
             if isinstance(op, ast.Mod) and b.lo == b.hi and b.lo > 0:
-                return AV(0, b.lo - 1, kind)
+                return AV(0, b.lo - 1, kind, note="int-remainder")
             if isinstance(op, ast.Div) and b.lo == b.hi and b.lo > 0:
                 return AV(a.lo / b.lo, a.hi / b.lo, kind)
         except Exception:
@@ -408,6 +427,8 @@ class IntervalInterp:
         if base is not None and isinstance(base, ast.Name) and base.id in ("self",) and n.func.attr in self.query_names:
             if args and isinstance(args[0], ast.JoinedStr):
                 self._fstring(args[0], env, n)
+            elif args and isinstance(args[0], ast.Name) and isinstance(env.get("$str:" + args[0].id), list):
+                self._emit(env["$str:" + args[0].id], n)
             elif args:
                 self.sites.append(Site(n, self.fname, [("text", ast.unparse(args[0]))], ""))
             return AV(kind="str")
@@ -416,6 +437,26 @@ class IntervalInterp:
                 self.ev(a, env)
             return self.summaries[n.func.attr]
         last = name.split(".")[-1]
+        callee = None
+        if base is not None and isinstance(base, ast.Name) and base.id == "self" and n.func.attr in self.functions and n.func.attr not in self.query_names:
+            callee = self.functions[n.func.attr]
+        elif isinstance(n.func, ast.Name) and n.func.id in self.functions:
+            callee = self.functions[n.func.id]
+        if callee is not None and self.depth < 2 and not n.keywords:
+            # helper of the same module: interpreted with the caller's argument values
+            sub = IntervalInterp(self.consts, self.summaries, self.query_names, self.functions, self.depth + 1)
+            params = [a.arg for a in callee.args.args if a.arg not in ("self", "cls")]
+            senv = {p_: AV() for p_ in params}
+            for p_, a in zip(params, args):
+                senv[p_] = self.ev(a, env)
+            sub.fname = callee.name
+            sub.block(callee.body, senv)
+            if sub.returns:
+                out = sub.returns[0]
+                for r in sub.returns[1:]:
+                    out = hull(out, r)
+                return out
+            return AV()
         if last == "clip":
             if base is not None and not name.startswith(("np.", "numpy.")):
                 x = self.ev(base, env)
@@ -505,9 +546,30 @@ class IntervalInterp:
                     spec = "".join(str(x.value) for x in v.format_spec.values if isinstance(x, ast.Constant))
                 if spec and spec[-1] in "feEgGd%" and val.kind == "array":
                     self.fmt_issues.append((v, ast.unparse(v.value), spec, js))
-                parts.append(("slot", ast.unparse(v.value), val, spec))
+                if val.kind == "str" and val.member and all(isinstance(m, str) for m in val.member) and not spec:
+                    parts.append(("alts", sorted(val.member)))
+                else:
+                    parts.append(("slot", ast.unparse(v.value), val, spec))
         if query_node is not None:
-            self.sites.append(Site(query_node, self.fname, parts, ""))
+            self._emit(parts, query_node)
+        return parts
+
+    def _emit(self, parts, query_node):
+        """one site per combination of the literal alternatives interpolated into the command text"""
+        combos = [[]]
+        for p in parts:
+            if p[0] == "alts":
+                combos = [c + [("text", alt)] for c in combos for alt in p[1]]
+            else:
+                combos = [c + [p] for c in combos]
+        for c in combos[:16]:
+            merged = []
+            for p in c:
+                if p[0] == "text" and merged and merged[-1][0] == "text":
+                    merged[-1] = ("text", merged[-1][1] + p[1])
+                else:
+                    merged.append(p)
+            self.sites.append(Site(query_node, self.fname, merged, ""))
 
 
 def _callname(n):
@@ -518,9 +580,7 @@ def _callname(n):
 
 
 def _load(t):
-    import copy
-    n = copy.deepcopy(t)
+    n = ast.parse(ast.unparse(t), mode="eval").body   # Load-context copy (a deepcopy would follow the _parent links)
     for x in ast.walk(n):
-        if hasattr(x, "ctx"):
-            x.ctx = ast.Load()
+        ast.copy_location(x, t)
     return n
